@@ -129,7 +129,10 @@ func (mq *MessageQueue) buildMessage(size uint64, buildMessageFn func(*Builder))
 	builder := mq.builders[len(mq.builders)-1]
 	builder.allocated += size
 	buildMessageFn(builder)
-	return !builder.Empty()
+	// a build function that added nothing (e.g. its response stream was closed while it waited for
+	// memory) still leaves its reservation on the builder: the queue must get to see that builder, or
+	// the bytes stay reserved until some later message happens to be queued for the peer
+	return !builder.Empty() || builder.allocated > 0
 }
 
 func shouldBeginNewResponse(builders []*Builder, blkSize uint64) bool {
